@@ -55,6 +55,6 @@ theorem T2 (p : Program) (hnp : (run p).panic = none) (hacc : (run p).errors = [
     rw [List.mem_map]
     exact ⟨functionBody (pass2 p (pass1 p GState.init)).globals f, by
       rw [List.mem_map]; exact ⟨f, by rw [fns_eq_fnDecls]; exact hf, rfl⟩, rfl⟩
-  exact T2_function hg hn f (hok f hf) he
+  exact (T2_function hg hn f (hok f hf) he).1
 
 end SemVerif
